@@ -58,7 +58,8 @@ def neg(w):
 
 def impl_rows(ep, n):
     """executed rows (seq >= 0) of node n from the compiled record, as (seq, ts, state, out, wins)"""
-    c = ep["rows"][n]; out = []
+    c = ep["rows"].get(n); out = []
+    if c is None: return out        # a node without a slot in the compiled graph (pruned) never runs and has no record
     for k in range(len(c["seq"])):
         if c["seq"][k] < 0: continue
         out.append((c["seq"][k], c["start"][k], c["state"][k] if "state" in c else None, c["out"][k] if "out" in c else None,
